@@ -322,7 +322,14 @@ func (s *raftLog) StoreLogs(logs []*raft.Log) error {
 // DeleteRange deletes logs within a given range inclusively.
 func (s *raftLog) DeleteRange(min, max uint64) error {
 	batch := rocksdb.NewWriteBatch()
-	batch.DeleteRangeCF(s.cfHandles[logTable], util.Uint64AsBytes(min), util.Uint64AsBytes(max+1))
+	if max == ^uint64(0) {
+		// max+1 wraps to 0 and the half-open range [min, 0) is empty (RocksDB
+		// rejects it): delete [min, max) and the entry at max itself
+		batch.DeleteRangeCF(s.cfHandles[logTable], util.Uint64AsBytes(min), util.Uint64AsBytes(max))
+		batch.DeleteCF(s.cfHandles[logTable], util.Uint64AsBytes(max))
+	} else {
+		batch.DeleteRangeCF(s.cfHandles[logTable], util.Uint64AsBytes(min), util.Uint64AsBytes(max+1))
+	}
 	return s.db.Write(s.wo, batch)
 }
 
